@@ -83,14 +83,6 @@ theorem iptw_measures_saturated (l : List (Row F)) (S : List Nat) (hS : Strata l
   have e0 : m0 = s0 := iptw_saturated l S hS hpos stab t false n hn0 hn1 p hp q hq mnum (hm false)
   rw [e1, e0]; exact ⟨rfl, rfl, rfl⟩
 
-/-- **Tie to the source (IPTW).**  The weight column handed to the marginal structural model, regenerated from the
-    text of `IPTW.fit` on every run, is IPTW × IPMW × user weight — the row weight `ω r · r.w` that `hajek` applies
-    with `ω = iptwOmega` (whose last factor is the missingness weight). -/
-theorem iptw_final_weight_generated (hasIpmw hasWeight : Bool) (iptw ipmw : Row F → F) (r : Row F) :
-    Gen.iptw_final_weight hasIpmw hasWeight iptw ipmw r
-      = (iptw r * (if hasIpmw then ipmw r else 1)) * (if hasWeight then r.w else 1) := by
-  cases hasIpmw <;> cases hasWeight <;> simp [Gen.iptw_final_weight]
-
 /-- **TimeFixedGFormula.**  Saturated outcome model: the mean over the target rows of the prediction
     under "treat all" / "treat none" is the standardized mean.  (Rows with a missing outcome are
     target rows: `predict_missing=True`.) -/
@@ -98,14 +90,6 @@ theorem gformula_saturated (l : List (Row F)) (S : List Nat) (hS : Strata l S) (
     (Q : Nat → Bool → F) (hQ : OutFit l S Q) (t : Tgt) (a : Bool) :
     gformula l (fun r => Q r.s) t.mem a = std l S t.mem a := by
   exact gformula_of_outfit l S hS hpos Q hQ t.mem a
-
-/-- **Tie to the source.**  The marginal-mean lines of `TimeFixedGFormula.fit`, regenerated from their text
-    on every run, compute the model `gformula` (when no row is lost to `dropna`; without a weight column all
-    frequency weights are 1): so the generated code inherits `gformula_saturated`. -/
-theorem gformula_generated (hasWeights : Bool) (t : Tgt) (l : List (Row F)) (pred : Row F → F) (a : Bool)
-    (hw : hasWeights = false → ∀ r ∈ l, r.w = 1) :
-    Gen.gformula_marginal hasWeights t.str l pred (fun _ => true) = gformula l (fun r _ => pred r) t.mem a :=
-  gformula_marginal_eq hasWeights t l pred a hw
 
 /-- **AIPTW** with both nuisance models saturated (no missing outcomes): the weighted means of the
     pseudo-outcomes are the standardized means over the whole population. -/
@@ -117,16 +101,6 @@ theorem aipw_saturated (l : List (Row F)) (S : List Nat) (hS : Strata l S) (hpos
   · exact aipw1_of_outfit l S hS hpos hobs Q hQ p (fun s => 1 - p s) (fun s hs => (hp.mem_Ioo hpos hs).1.ne')
   · refine aipw0_of_outfit l S hS hpos hobs Q hQ p (fun s => 1 - p s) (fun s hs => ?_)
     have := (hp.mem_Ioo hpos hs).2; exact (sub_pos.mpr this).ne'
-
-/-- **Tie to the source (AIPTW).**  `aipw_calculator`, regenerated from its text on every run (NaN outcomes skipped
-    exactly as numpy's `nanmean` / NaN masks do), returns on data without missing outcomes the difference — or, for the
-    ratio, the quotient — of the model's two pseudo-outcome means `aipw1`, `aipw0`, weighted or not. -/
-theorem aipw_calc_generated (difference hasWeights : Bool) (nanv : F) (l : List (Row F)) (hobs : ∀ r ∈ l, r.obs = true)
-    (hw : hasWeights = false → ∀ r ∈ l, r.w = 1) (py_a py_n pa1 pa0 : Row F → F) :
-    let Q : Row F → Bool → F := fun r a => if a then py_a r else py_n r
-    (Gen.aipw_calc difference hasWeights nanv l py_a py_n pa1 pa0).1
-      = if difference then aipw1 l Q pa1 pa0 - aipw0 l Q pa1 pa0 else aipw1 l Q pa1 pa0 / aipw0 l Q pa1 pa0 :=
-  aipw_calc_eq difference hasWeights nanv l hobs hw py_a py_n pa1 pa0
 
 /-! ### Non-vacuity: a concrete data set satisfying every hypothesis -/
 
